@@ -13,6 +13,7 @@ from pest.grammar.expressions.choice import ChoiceCase
 from pest.grammar.expressions.choice import ChoiceLiteral
 from pest.grammar.expressions.choice import ChoiceRange
 from pest.grammar.expressions.choice import OptimizedChoice
+from pest.grammar.expressions.choice import preserves_choice_order
 from pest.grammar.rules.unicode import UnicodePropertyRule
 
 if TYPE_CHECKING:
@@ -54,5 +55,8 @@ def squash(
             new_expr.update(*expr.choices)  # noqa: SLF001
         else:
             return None
+
+    if not preserves_choice_order(new_expr.choices):
+        return None
 
     return new_expr
